@@ -185,7 +185,9 @@ def eval_case(ctx, case):
     front_end = case.get("front_end", "docutils")
     try:
         if front_end == "sphinx":
-            b = drive.SphinxBuild({"index.md": text}, conf={"myst_enable_extensions": EXT, "myst_heading_anchors": case["anchors"], "keep_warnings": True}, builder="dummy")
+            b = drive.SphinxBuild({"index.md": text}, conf={"myst_enable_extensions": EXT, "myst_heading_anchors": case["anchors"], "keep_warnings": True,
+                                                                # ignore patterns are matched IN FULL: none of these covers one of the generated missing targets ('missing-1', 'tgt99', 'nowhere', 'no such')
+                                                                "nitpick_ignore_regex": [("myst", "missing"), ("myst", "tgt9"), ("my", "nowhere"), ("myst", "no"), ("myst", "nowhere-else")]}, builder="dummy")
             try:
                 b.build()
                 # the warning STREAM (what the user sees, after Sphinx' handler-level filters), not the raw log records
